@@ -24,13 +24,14 @@ for line in subprocess.check_output([NL, "-list"], text=True).splitlines():
     for r in rules.split(): props.setdefault(r, []).append(pid.strip())
 import re as _re
 KNOWN_PATS = [_re.compile(p) for f in json.load(open(here + "/known_findings.json"))["findings"] if f["status"] == "known" for p in f.get("key_patterns", [])]
+BDIR = os.environ.get("BENIGN_DIR", here + "/benign_ext")
 base, _ = run_all("/repo")
 bad0 = {key(o) for o in base if o["status"] != "discharged"}
 def one(sid):
     d = tempfile.mkdtemp(prefix="nutsmx.", dir="/tmp")
     try:
         subprocess.run("git -C /repo archive HEAD | tar -x -C %s" % d, shell=True, check=True)
-        r = subprocess.run("patch -p1 -s < %s/benign_ext/%s.diff" % (here, sid), shell=True, cwd=d, capture_output=True, text=True)
+        r = subprocess.run("patch -p1 -s < %s/%s.diff" % (BDIR, sid), shell=True, cwd=d, capture_output=True, text=True)
         if r.returncode != 0: return sid, None, "patch failed: " + r.stdout + r.stderr
         obs, log = run_all(d)
         if obs is None: return sid, None, "nutslint failed: " + log[-400:]
@@ -40,7 +41,7 @@ def one(sid):
         shutil.rmtree(d, ignore_errors=True)
 args = [a for a in sys.argv[1:] if a != "-u"]
 update = "-u" in sys.argv
-sids = args or sorted(os.path.basename(p)[:-5] for p in glob.glob(here + "/benign_ext/*.diff"))
+sids = args or sorted(os.path.basename(p)[:-5] for p in glob.glob(BDIR + "/*.diff"))
 tot = tgt = anyv = 0
 with cf.ThreadPoolExecutor(max_workers=6) as ex:
     for sid, new, err in ex.map(one, sids):
